@@ -106,7 +106,7 @@ def agree(case, o):
     # the other forms in which the library itself serialises (argument combinations of its dump
     # sites, the JSON text of the stdio writer), a repeated dump, a repeated validation of the same dict
     pv, fv = dict(p.get("variants") or {}), dict(f.get("variants") or {})
-    for k in ("second", "from_instance", "input_intact", "reuse_error"):
+    for k in ("second", "from_instance", "fresh_after_instances_edited", "input_intact", "reuse_error", "value_subclasses", "enum_members"):
         pv[k], fv[k] = p.get(k), f.get(k)
     for k in sorted(pv):
         d = first_diff(pv.get(k), fv.get(k))
@@ -496,12 +496,12 @@ class ModelCases(Suite):
                         out.append({"cls": cid, "mode": "reorder", "wire": G.obj(cid, rng, extras="random")})
         if budget == "quick":
             # the other wire forms / reuse observations (7 more dumps, 2 more validations per backend):
-            # every directed case, every third of the bulk modes in the quick tier, all in thorough
+            # every directed case, every sixth of the bulk modes in the quick tier, all in thorough
             n = 0
             for c in out:
                 if c["mode"] in ("random", "none", "magic"):
                     n += 1
-                    if n % 3:
+                    if n % 6:
                         c["forms"] = False
         return out
 
@@ -633,7 +633,9 @@ class FreshOrder(Suite):
         groups = [ids for _, ids in sorted(names.items()) if len(ids) > 1]
 
         def step(cid, wire, valid=True):
-            return {"op": "validate", "cls": cid, "wire": wire, "valid": valid, "where": [S[cid]["module"], S[cid]["name"]]}
+            # sequences are about state and order: the plain observation (accept, tree, dump), not the other forms
+            return {"op": "validate", "cls": cid, "wire": wire, "valid": valid, "forms": False,
+                    "where": [S[cid]["module"], S[cid]["name"]]}
 
         def objs(cid, rng, n):
             full = {f["name"] for f in G.optional_fields(cid)}
@@ -753,10 +755,20 @@ class FreshOrder(Suite):
         return "fresh-order/" + "+".join(case["order"])
 
     def shrink_candidates(self, case):
+        # every candidate costs a fresh pair of processes: halve first, single steps only when short
         st = case["steps"]
-        for i in range(len(st) - 1, -1, -1):
-            if len(st) > 1:
-                yield {**case, "steps": st[:i] + st[i + 1:]}
+        setups = [x for x in st if x["op"] == "setup"]
+        rest = [x for x in st if x["op"] != "setup"]
+        n = len(rest)
+        if n > 1:
+            yield {**case, "steps": setups + rest[-1:]}
+            yield {**case, "steps": setups + rest[n // 2:]}
+            yield {**case, "steps": setups + rest[: n // 2]}
+        if 1 < n <= 6:
+            for i in range(n - 1, -1, -1):
+                yield {**case, "steps": setups + rest[:i] + rest[i + 1:]}
+        if setups and n >= 1:
+            yield {**case, "steps": rest}
 
 
 class Constructors(Suite):
@@ -789,6 +801,8 @@ class Constructors(Suite):
                 return v["wire"]
             if "$tuple" in v:
                 return [Constructors.wire_args(x) for x in v["$tuple"]]
+            if "$sub" in v:
+                return v["value"]
             return {k: Constructors.wire_args(x) for k, x in v.items()}
         if isinstance(v, list):
             return [Constructors.wire_args(x) for x in v]
@@ -851,6 +865,10 @@ class Constructors(Suite):
             return {kk: self.arg(G, t["t"], rng, depth + 1, pname) for kk in rng.sample(schema_gen.ANY_KEYS, rng.randrange(0, 3))}
         if k == "str" and pname == "uri" :
             return "file://" + rng.choice(["/a", "/tmp/x y", "/", ""])
+        if k in ("str", "int") and depth == 0 and rng.random() < 0.3:
+            # a caller's str / int SUBCLASS instance or StrEnum / IntEnum member (marker types for ids, names)
+            v = G.value(t, rng, depth, {})
+            return {"$sub": rng.choice(["class", "enum"]), "value": v}
         if k == "float" and "priority" in pname:
             return rng.choice([0, 0.0, 1, 1.0, 0.5, 0.25])
         return G.value(t, rng, depth, {})
@@ -878,6 +896,17 @@ class Constructors(Suite):
                         continue
                     kwargs[p["name"]] = self.arg(G, p["ty"], rng, 0, p["name"])
                 out.append({"module": c["module"], "qual": c["qual"], "kwargs": kwargs})
+            # directed: every parameter that admits a string / an int given as a SUBCLASS instance and as an
+            # enum member whose value looks like the other type ("12" for a str, 1 for an int)
+            if not c.get("returns"):
+                for p in c["params"]:
+                    for leaf, val in (("str", "12"), ("int", 1)):
+                        if G.with_str(p["ty"], val, leaf) is None or p["name"] == "uri":
+                            continue
+                        for how in ("class", "enum"):
+                            kwargs = {q["name"]: self.arg(G, q["ty"], rng, 1, q["name"]) for q in c["params"] if not q["optional"]}
+                            kwargs[p["name"]] = G.with_str(p["ty"], {"$sub": how, "value": val}, leaf)
+                            out.append({"module": c["module"], "qual": c["qual"], "kwargs": kwargs})
         return out
 
     def impl_batch(self, cases):
@@ -973,6 +1002,27 @@ class HelperFlows(Suite):
         for q in ["", "one", "a b c d e", "%s {0}\n", "x" * 500]:
             out.append({"flow": "example-tool", "arguments": {"query": q}})
         out.append({"flow": "example-tool", "arguments": {}})
+        if "Root" in S:
+            # helpers that keep models in containers (and may compare them): add, re-add the same value, the
+            # same OBJECT, a rename under the same uri, remove, clear — on two managers with equal uris
+            for i in range(max(2, n // 2)):
+                a = G.obj("Root", rng, present={"name"}, extras="none")
+                b = {**a, "name": a.get("name", "") + " renamed"}
+                c = G.obj("Root", rng, present=set(), extras="random")
+                ops = [{"op": "add", "root": a}, {"op": "add", "root": a}, {"op": "add-same-object"}, {"op": "add", "root": b},
+                       {"op": "add", "root": a, "mgr": 1}, {"op": "list", "id": i}, {"op": "add", "root": c}, {"op": "add", "root": b, "mgr": 1},
+                       {"op": "remove", "uri": a["uri"]}, {"op": "remove", "uri": a["uri"]}, {"op": "list", "id": "7", "mgr": 1},
+                       {"op": "add", "root": a}, {"op": "clear"}, {"op": "clear"}, {"op": "list"}]
+                out.append({"flow": "roots-manager", "ops": ops})
+        if "CompletionResult" in S:
+            bounds = sorted({0, 1, 99, 100, 101, 250} | {m_ for m_ in schema_h.magic().get("CompletionResult", {}).get("ints", []) if 0 <= m_ <= 1200})
+            for n_ in bounds:
+                out.append({"flow": "completion-provider", "n": n_, "argument": {"name": "a", "value": rng.choice(["", "v", "%s"])},
+                            "refs": [{"type": "ref/resource", "uri": "file:///x"}, {"type": "ref/prompt", "name": "p"},
+                                     {"type": "ref/prompt", "name": "unknown"}, {"type": "other"}]})
+        for inner in ("ok", "raise"):
+            for outer in ("wrap", "pass", "raise"):
+                out.append({"flow": "registry-reentrant", "inner": inner, "outer": outer, "inner_value": rng.choice([{"v": 1}, "text", {}])})
         if "EmbeddedResource" in S:
             import base64
             for raw in (b"", b"\x00", b"\xff\xfe binary \n", bytes(range(256)), b"x" * 3000):
@@ -1062,7 +1112,11 @@ class HelperFlows(Suite):
                 pv = b["parse"].get("value") if fl == "content-kind" else b["parse"]
                 if bad is None and not schema_h.same(pv, em):
                     bad = "parse then dump differs from the serialised form"
-            elif fl in ("registry", "embedded-bytes", "example-tool") and "propagated" not in b:
+            elif fl == "completion-provider":
+                for r_ in b.get("results", []):
+                    if "emitted" in r_ and not schema_h.same(r_.get("roundtrip", {}).get("dump"), r_["emitted"]):
+                        bad = f"a completion result does not round-trip: {str(r_.get('roundtrip'))[:100]}"
+            elif fl in ("registry", "embedded-bytes", "example-tool", "registry-reentrant") and "propagated" not in b:
                 rt = b.get("roundtrip", {})
                 if "dump" not in rt or not schema_h.same(rt["dump"], b["emitted"]):
                     bad = f"the emitted object does not round-trip through its class: {str(rt)[:120]}"
